@@ -29,7 +29,7 @@ Suppressions:
 """
 
 import ast
-from pathlib import Path
+from pathlib import Path, PurePosixPath
 from typing import Any
 
 from src.analyzers.rust_base import TREE_SITTER_RUST_AVAILABLE
@@ -452,10 +452,15 @@ class MagicNumberRule(MultiLanguageLintRule):  # thailint: ignore[srp]
         Returns:
             True if test file
         """
-        path_str = str(file_path)
-        return any(
-            pattern in path_str
-            for pattern in [".test.", ".spec.", "test_", "_test.", "/tests/", "/test/"]
+        name = PurePosixPath(str(file_path).replace("\\", "/")).name
+        parts = PurePosixPath(str(file_path).replace("\\", "/")).parts[:-1]
+        return (
+            ".test." in name
+            or ".spec." in name
+            or name.startswith("test_")
+            or "_test." in name
+            or "tests" in parts
+            or "test" in parts
         )
 
     def _check_rust(self, context: BaseLintContext, config: MagicNumberConfig) -> list[Violation]:
